@@ -5,6 +5,8 @@ V = "/verif"
 rows = []
 for m in sorted(glob.glob(V + "/seeded/*/meta.json")):
     d = json.load(open(m))
+    if d.get("kind") == "harmless refactoring":
+        continue
     det = []
     for p, v in sorted(d.get("checks", {}).items()):
         if v.get("violation"):
@@ -14,9 +16,18 @@ for m in sorted(glob.glob(V + "/seeded/*/meta.json")):
     rows.append(f"| `{d['name']}` | {d['property']} | {'yes' if d.get('confirmed') else 'NO'} | "
                 f"{', '.join(det) or '**none**'} | {summary} |")
 tbl = "| seeded change | breaks | confirmed | caught by (quick tier) | what it needs to manifest |\n|---|---|---|---|---|\n" + "\n".join(rows)
+hrows = []
+for m in sorted(glob.glob(V + "/seeded/harmless-*/meta.json")):
+    d = json.load(open(m))
+    hrows.append(f"| `harmless-{d['name']}` | {d.get('area', '')} | {d.get('lines_changed', '?')} | "
+                 f"{', '.join(d['alarms']) or 'none'} |")
+htbl = "| behaviour-preserving refactoring | area | changed lines | alarms (all 20 quick checks) |\n|---|---|---|---|\n" + "\n".join(hrows)
 p = V + "/DESIGN.md"
 s = open(p).read()
 s = re.sub(r"<!-- SEEDED_TABLE_BEGIN -->.*<!-- SEEDED_TABLE_END -->",
            "<!-- SEEDED_TABLE_BEGIN -->\n" + tbl + "\n<!-- SEEDED_TABLE_END -->", s, flags=re.S)
+s = re.sub(r"<!-- HARMLESS_TABLE_BEGIN -->.*<!-- HARMLESS_TABLE_END -->",
+           "<!-- HARMLESS_TABLE_BEGIN -->\n" + htbl + "\n<!-- HARMLESS_TABLE_END -->", s, flags=re.S)
 open(p, "w").write(s)
 print(tbl)
+print(htbl)
